@@ -91,7 +91,9 @@ def prefixSearch (val : Rat) (name : String) (k : Int) : List (String × Numeric
 /-- `prettify` for an exact value: `(value, unit)`; `none` = float value (outside the model) -/
 def prettify (reg : Registry) (n : Number) : Option Number :=
   let unit := prettyUnit reg n.unit
-  match Dim.asSingle unit, n.value with
+  -- (after the fix) an SI prefix is chosen only for exponents between -64 and 64
+  let single := (Dim.asSingle unit).filter fun nk => decide (-64 ≤ nk.2) && decide (nk.2 ≤ 64)
+  match single, n.value with
   | some (name, k), .rational q =>
     let (val, name', k') :=
       if name == "kg" || name == "kilogram" then (q * (if k < 0 then 1 / (1000 : Rat) ^ k.natAbs else (1000 : Rat) ^ k.natAbs), "gram", k)
